@@ -34,22 +34,22 @@ const (
 	afProxySecret = "proxy-client-secret"
 	afHost        = "sso-auth.x.io"
 	afCookieKey   = "YXV0aGNvb2tpZXNlY3JldDAxMjM0NTY3ODlhYmNkZWY=" // base64("authcookiesecret0123456789abcdef")
-	afCodeKey     = "YXV0aGNvZGVrZXkwMTIzNDU2Nzg5YWJjZGVmMDEyMzQ="  // base64("authcodekey0123456789abcdef01234")
+	afCodeKey     = "YXV0aGNvZGVrZXkwMTIzNDU2Nzg5YWJjZGVmMDEyMzQ=" // base64("authcodekey0123456789abcdef01234")
 )
 
 type afIdP struct {
-	Kind     string `json:"kind"` // ok | status | transport | raw
-	Status   int    `json:"status"`
-	Raw      string `json:"raw"` // body for kind raw (status 200)
-	Access   string `json:"access"`
-	RefreshT string `json:"refreshT"`
-	TTL      int64  `json:"ttl"`
-	IDToken  string `json:"idToken"` // literal id_token (google)
-	Email    string `json:"email"`   // userinfo (okta)
-	Verified bool   `json:"verified"`
-	Active   bool   `json:"active"` // introspect (okta)
+	Kind     string   `json:"kind"` // ok | status | transport | raw
+	Status   int      `json:"status"`
+	Raw      string   `json:"raw"` // body for kind raw (status 200)
+	Access   string   `json:"access"`
+	RefreshT string   `json:"refreshT"`
+	TTL      int64    `json:"ttl"`
+	IDToken  string   `json:"idToken"` // literal id_token (google)
+	Email    string   `json:"email"`   // userinfo (okta)
+	Verified bool     `json:"verified"`
+	Active   bool     `json:"active"` // introspect (okta)
 	Groups   []string `json:"groups"`
-	ErrDesc  string `json:"errDesc"` // error_description for status 400
+	ErrDesc  string   `json:"errDesc"` // error_description for status 400
 }
 
 type afSess struct {
@@ -63,7 +63,7 @@ type afSess struct {
 
 type afStep struct {
 	SleepMs  int               `json:"sleepMs"` // real time to let pass before this step (long-running process, deadlines passing)
-	Slug     string            `json:"slug"` // google | okta | other
+	Slug     string            `json:"slug"`    // google | okta | other
 	Endpoint string            `json:"endpoint"`
 	Method   string            `json:"method"`
 	Host     string            `json:"host"`
@@ -93,28 +93,29 @@ type afSign struct {
 }
 
 type afCase struct {
-	Domains   []string `json:"domains"`   // allowed e-mail domains
-	Addresses []string `json:"addresses"` // or addresses
-	Roots     []string `json:"roots"`     // proxy root domains
-	Steps     []afStep `json:"steps"`
+	ConfigCheck bool     `json:"configCheck,omitempty"` // the configuration-validation check instead of a step list
+	Domains     []string `json:"domains"`               // allowed e-mail domains
+	Addresses   []string `json:"addresses"`             // or addresses
+	Roots       []string `json:"roots"`                 // proxy root domains
+	Steps       []afStep `json:"steps"`
 }
 
 type afWorld struct {
 	lastCode     string
 	lastCodeEnds time.Time
-	c        afCase
-	handler  http.Handler
-	mu       sync.Mutex
-	cur      *afStep
-	idpCalls []M
-	cookieCi map[string]*aead.MiscreantCipher
-	codeCi   *aead.MiscreantCipher
-	other    *aead.MiscreantCipher
-	jar      map[string]string // slug -> session cookie value
-	csrfJar  map[string]string
-	idpState map[string]string
-	benign   map[string]bool
-	mux      *auth.AuthenticatorMux
+	c            afCase
+	handler      http.Handler
+	mu           sync.Mutex
+	cur          *afStep
+	idpCalls     []M
+	cookieCi     map[string]*aead.MiscreantCipher
+	codeCi       *aead.MiscreantCipher
+	other        *aead.MiscreantCipher
+	jar          map[string]string // slug -> session cookie value
+	csrfJar      map[string]string
+	idpState     map[string]string
+	benign       map[string]bool
+	mux          *auth.AuthenticatorMux
 }
 
 type afTransport struct{ w *afWorld }
@@ -796,7 +797,56 @@ func idTokenOracle(tok string) (string, bool, int, bool, bool) {
 	return c.Email, c.Email != "" && c.EmailVerified, len(segs), true, c.EmailVerified
 }
 
+// afConfigCheck: what cmd/sso-auth does before serving — DefaultAuthConfig, fill in, Validate — with the proxy's client
+// credentials left out, half given, or given; and, if validation lets a configuration without credentials through, what
+// a request *without* credentials then gets from the back channel.
+func afConfigCheck() M {
+	var rows []M
+	for _, v := range []struct {
+		id, secret string
+		touch      bool
+	}{{"", "", false}, {"", "", true}, {afProxyID, "", true}, {"", afProxySecret, true}, {afProxyID, afProxySecret, true}} {
+		cfg := auth.DefaultAuthConfig()
+		cfg.ServerConfig.Host = afHost
+		cfg.ServerConfig.Scheme = "https"
+		cfg.SessionConfig.Key = afCodeKey
+		cfg.SessionConfig.CookieConfig.Secret = afCookieKey
+		cfg.AuthorizeConfig.EmailConfig.Domains = []string{"x.io"}
+		cfg.AuthorizeConfig.ProxyConfig.Domains = []string{"x.io"}
+		cfg.ProviderConfigs = map[string]auth.ProviderConfig{
+			"google": {ProviderType: "google", ProviderSlug: "google", ClientConfig: auth.ClientConfig{ID: "g-id", Secret: "g-secret"}, GroupCacheConfig: cfg.GroupCacheConfig},
+		}
+		cfg.LoggingConfig.Enable = false
+		if v.touch {
+			cfg.ClientConfigs["proxy"] = auth.ClientConfig{ID: v.id, Secret: v.secret}
+		}
+		row := M{"id": v.id, "secret": v.secret, "untouchedDefault": !v.touch}
+		err := cfg.Validate()
+		row["valid"] = err == nil
+		if err != nil {
+			row["error"] = err.Error()
+		} else if m, merr := auth.NewAuthenticatorMux(cfg, getStatsd()); merr == nil {
+			// a caller that presents no credentials at all
+			req := httptest.NewRequest("GET", "/google/validate", nil)
+			req.Host = afHost
+			req.Header.Set("X-Access-Token", "at")
+			rec := httptest.NewRecorder()
+			func() {
+				defer func() { recover() }()
+				m.ServeHTTP(rec, req)
+			}()
+			row["credentialLessStatus"] = rec.Code
+			m.Stop()
+		}
+		rows = append(rows, row)
+	}
+	return M{"cfgcheck": rows, "raw": afCase{ConfigCheck: true}}
+}
+
 func afRun(c afCase) M {
+	if c.ConfigCheck {
+		return afConfigCheck()
+	}
 	w, err := newAfWorld(c)
 	if err != nil {
 		return M{"cfg": c, "setupError": err.Error(), "steps": []M{}, "raw": c}
